@@ -592,6 +592,24 @@ impl StaticBundle for DLD {
         vec![(6, self.l.serial()), (3, self.d.serial())]
     }
 }
+/// a derived bundle with a type parameter, used with two different arguments in one process (whatever the
+/// derive computes once per *struct* rather than once per *instantiation* shows here)
+#[derive(hecs::Bundle, hecs::DynamicBundleClone, Clone)]
+pub struct GB<T: Comp + Clone> {
+    pub v: T,
+    pub a: A,
+}
+impl<T: Comp + Clone> StaticBundle for GB<T> {
+    fn types() -> Vec<usize> {
+        vec![T::IDX, 0]
+    }
+    fn make(s: &[u64]) -> Self {
+        GB { v: T::new(s[0]), a: A::new(s[1]) }
+    }
+    fn serials(&self) -> Vec<(usize, u64)> {
+        vec![(T::IDX, self.v.serial()), (0, self.a.serial())]
+    }
+}
 impl StaticBundle for DAB {
     fn types() -> Vec<usize> {
         vec![0, 1]
@@ -675,6 +693,9 @@ macro_rules! with_bundle {
             // out-of-contract: a component type named twice (must be rejected by hecs)
             39 => { type $T = (A, A); $body }
             40 => { type $T = (B, A, B); $body }
+            // (beyond `NBUNDLES_ALL`: reached by a scripted scenario only)
+            41 => { type $T = GB<B>; $body }
+            42 => { type $T = GB<C>; $body }
             _ => panic!("harness: bad bundle menu index"),
         }
     }};
